@@ -30,15 +30,19 @@ import Upa.Proofs.C20c
      So the C++ is not at fault, but it relies on "empty string ⇒ all members reset" as an invariant.
   2. `C20c_reparse_after_failed_setter`, `C20c_reparse_obj`.
   3. `C20c_assign_after_failure`, `C20c_assign_after_failure_raw`.
-  4. `C20c_parse_failure_empty`, `C20c_parse_failure_classes`, `C20c_after_parse_failure`,
-     `C20c_catch_bites`, `C20c_doParse_refines`.
-     OBSERVED while modelling: `parse_search_params()` (url.h:1461) is outside the `try`: a failure
-     there leaves a VALID url with the new record whose params object still holds what `new_url` left
-     (the emptied list - or, for an object that was empty before, its old list): case (iii) of
-     `C20c_parse_failure_classes`, instance `C20c_params_failure_example`.
+  4. `C20c_parse_failure_empty`, `C20c_parse_failure_classes`, `C20c_failed_parse_lockstep`,
+     `C20c_after_parse_failure`, `C20c_catch_bites`, `C20c_doParse_refines`.
+     FOUND while modelling, repaired by commit 46fa9a3: `parse_search_params()` stood AFTER the `try`
+     (url.h:1461 then): a failure there left a VALID url with the new record whose params object still
+     held what `new_url` left (the emptied list - or, for an object that was empty before, its old
+     list).  The old order is kept as `doParseParamsOutsideTry`; `C20c_params_outside_try_bites` is the
+     witness, `C20c_params_outside_try_same` says the two orders differ nowhere else.  In the library as
+     it is now the call is inside the `try` (url.h:1454-1459): every exception from `new_url()` on leaves
+     the empty url (two classes in `C20c_parse_failure_classes`), and no valid url is ever left with a
+     parameter list that was not rebuilt from its query (`C20c_failed_parse_lockstep`).
   5. `C20c_nonvacuous`.
 
-  Checked on the real library (/repo as of this writing, g++ -O0, friend access through UPA_VERIF_HOOKS,
+  Checked on the real library (/repo before commit 46fa9a3, g++ -O0, friend access through UPA_VERIF_HOOKS,
   counting `operator new`; program and output: /tmp/proofs/pc3/cpp/pc3demo.cpp, out.txt, out_ndebug.txt):
     * `C20c_newUrl_leak`: a default-constructed url whose members were set BY HAND (friend access) to
       `c20cLeakRep`, then `parse("a:b")` resp. `parse("a:/x")`: raw state exactly as the theorem says
@@ -49,10 +53,11 @@ import Upa.Proofs.C20c
     * `C20c_nonvacuous`: `hash(64 x 'v')` on a copy of http://h/p?q#old, n = 2, 3, 4: "http://h/p?q#vvv…",
       `part_end_[FRAGMENT] = 0`, flag on; `parse("s://x:1/y?z")` into it, copy assignment into it, copy
       construction from it: raw state equal to that of a fresh parse / of the source, for every n.
-    * `C20c_params_failure_example`: http://h/?a=1 with a params object, `parse("http://h2/?x=1&y=2")`,
-      n = 2, 3 (the list nodes of `parse_search_params`): valid, href "http://h2/?x=1&y=2", params list
-      EMPTY.  On an empty url owning the list [a=b]: valid, same href, list still [a=b]; a following
-      `search_params().append("c","d")` rewrites the url to "http://h2/?a=b&c=d".
+    * `C20c_params_outside_try_bites` (on /repo BEFORE commit 46fa9a3): http://h/?a=1 with a params object,
+      `parse("http://h2/?x=1&y=2")`, n = 2, 3 (the list nodes of `parse_search_params`): valid, href
+      "http://h2/?x=1&y=2", params list EMPTY.  On an empty url owning the list [a=b]: valid, same href,
+      list still [a=b]; a following `search_params().append("c","d")` rewrites the url to
+      "http://h2/?a=b&c=d".
 -/
 namespace Upa.Props
 open Upa Upa.Impl Upa.Impl.FaultRep Upa.Proofs.C05 Upa.Proofs.SetRep Upa.Proofs.SetRepApi
@@ -338,50 +343,83 @@ theorem C20c_empty_url_getters : GettersEmpty Rep.cleared :=
   ⟨by decide, by decide, by decide, by decide, by decide, by decide, by decide, by decide, by decide,
    by decide, by decide, by decide, cleared_partView⟩
 
-/-- A failure at ANY throwing primitive inside the `try` block of `do_parse` - whatever object `o` the
-    call started on, whatever half-built representations `trace` the parser passes, the base being a
-    valid object or absent: the exception propagates and the object is the EMPTY url: all record
-    members reset, `is_valid() = false`, every getter returns the empty view; the params object is as
-    `new_url()` left it. -/
+/-- A failure at ANY throwing primitive inside the `try` block of `do_parse` - a primitive of `url_parse`
+    (`k < pre + trace.length`), or `parse_search_params()` after a successful parse of an object that
+    owns a params object (`k = pre + trace.length`; inside the `try` since commit 46fa9a3) - whatever
+    object `o` the call started on, whatever half-built representations `trace` the parser passes,
+    the base being a valid object or absent: the exception propagates and the object is the EMPTY url:
+    all record members reset, `is_valid() = false`, every getter returns the empty view; the params
+    object is as `new_url()` left it. -/
 theorem C20c_parse_failure_empty :
     ∀ (idna : Idna) (o : ObjR) (e : Enc) (units : List Nat) (base : Option (Option Rep)) (pre : Nat)
-      (trace : List Rep) (k : Nat), base ≠ some none → pre ≤ k → k < pre + trace.length →
+      (trace : List Rep) (k : Nat), base ≠ some none → pre ≤ k →
+      (k < pre + trace.length ∨
+        (k = pre + trace.length ∧ (parseRepOn idna o.rep e units (base.bind id)).isSome = true ∧
+          o.newUrl.sp.isSome = true)) →
       ∃ o', doParseExc idna o e units base pre trace (some k) = (o', .threw) ∧
         o' = { rep := Rep.cleared, valid := false, sp := o.newUrl.sp } ∧
         o'.valid = false ∧ GettersEmpty o'.rep ∧ o'.Wf ∧ o'.toRObj = ⟨none, o.newUrl.sp⟩ := by
   intro idna o e units base pre trace k hb h1 h2
-  refine ⟨_, doParseWith_inside ObjR.resetRecord idna o e units hb pre trace k h1 h2, rfl, rfl,
-    C20c_empty_url_getters, ⟨fun hc => (by cases hc), fun _ => rfl⟩, rfl⟩
+  have rest : ∀ o' : ObjR, o' = { rep := Rep.cleared, valid := false, sp := o.newUrl.sp } →
+      o' = { rep := Rep.cleared, valid := false, sp := o.newUrl.sp } ∧
+      o'.valid = false ∧ GettersEmpty o'.rep ∧ o'.Wf ∧ o'.toRObj = ⟨none, o.newUrl.sp⟩ := by
+    intro o' ho'
+    subst ho'
+    exact ⟨rfl, rfl, C20c_empty_url_getters, ⟨fun hc => (by cases hc), fun _ => rfl⟩, rfl⟩
+  rcases h2 with h2 | ⟨h2, h3, h4⟩
+  · exact ⟨_, doParseWith_inside ObjR.resetRecord ObjR.resetRecord idna o e units hb pre trace k h1 h2, rest _ rfl⟩
+  · cases hp : parseRepOn idna o.rep e units (base.bind id) with
+    | none => rw [hp] at h3; cases h3
+    | some r' =>
+      subst h2
+      exact ⟨_, doParseWith_params ObjR.resetRecord ObjR.resetRecord idna o e units hb pre trace r' hp h4, rest _ rfl⟩
 
-/-- ALL the ways `do_parse` can end in an exception, for every schedule:
+/-- ALL the ways `do_parse` can end in an exception, for every schedule - TWO since commit 46fa9a3:
     (i)   before the `try` (copy of a base / an input that is the object itself): the object is untouched;
-    (ii)  inside the `try`: the empty url, as above;
-    (iii) in `parse_search_params()` after a SUCCESSFUL parse, the object owning a params object: the
-          url is valid, its record is the parse result, its params object is as `new_url()` left it. -/
+    (ii)  anywhere inside the `try`, `parse_search_params()` included: the empty url, as above. -/
 theorem C20c_parse_failure_classes :
     ∀ (idna : Idna) (o : ObjR) (e : Enc) (units : List Nat) (base : Option (Option Rep)) (pre : Nat)
       (trace : List Rep) (k : Option Nat) (o' : ObjR),
       doParseExc idna o e units base pre trace k = (o', .threw) →
       o' = o ∨
-      (o' = { rep := Rep.cleared, valid := false, sp := o.newUrl.sp } ∧ GettersEmpty o'.rep) ∨
-      (∃ r', base ≠ some none ∧ parseRepOn idna o.rep e units (base.bind id) = some r' ∧
-        o.newUrl.sp.isSome = true ∧ o' = { rep := r', valid := true, sp := o.newUrl.sp }) := by
+      (o' = { rep := Rep.cleared, valid := false, sp := o.newUrl.sp } ∧ GettersEmpty o'.rep) := by
   intro idna o e units base pre trace k o' h
-  rcases doParseWith_threw _ idna o e units base pre trace k o' h with h1 | ⟨half, _, h1⟩ | ⟨r', h1, h2, h3⟩
+  rcases doParseWith_cases _ _ idna o e units base pre trace k o' _ h with
+    ⟨h1, _⟩ | ⟨half, _, h1, _⟩ | ⟨r', _, _, h1, _⟩ | ⟨_, _, _, h1⟩ | ⟨_, _, h1⟩
   · exact Or.inl h1
-  · right; left
-    rw [h1]
-    exact ⟨rfl, C20c_empty_url_getters⟩
-  · right; right
-    rw [tryBodyT_val] at h1
-    refine ⟨r', ?_, ?_, h2, h3⟩
-    · intro hc; rw [hc] at h1; simp at h1
-    · cases base with
-      | none => exact h1
-      | some b =>
-        cases b with
-        | none => simp at h1
-        | some rb => exact h1
+  · right; rw [h1]; exact ⟨rfl, C20c_empty_url_getters⟩
+  · right; rw [h1]; exact ⟨rfl, C20c_empty_url_getters⟩
+  · cases h1
+  · cases h1
+
+/-- Lock-step after a failed parse (C06 meets C20).  Whatever the schedule and however the call ends:
+    * an exception leaves the object untouched or leaves the EMPTY (invalid) url;
+    * an object that is valid afterwards is either the untouched one, or `do_parse` RETURNED ok and the
+      params object (if any) was rebuilt from the QUERY part of the new record.
+    So no valid url is ever left with a parameter list that was not rebuilt from its query. -/
+theorem C20c_failed_parse_lockstep :
+    ∀ (idna : Idna) (o : ObjR) (e : Enc) (units : List Nat) (base : Option (Option Rep)) (pre : Nat)
+      (trace : List Rep) (k : Option Nat) (o' : ObjR) (en : ParseEnd),
+      doParseExc idna o e units base pre trace k = (o', en) →
+      (en = .threw → o' = o ∨ (o'.rep = Rep.cleared ∧ o'.valid = false ∧ o'.sp = o.newUrl.sp)) ∧
+      (o'.valid = true → (o' = o ∧ en = .threw) ∨
+        (en = .returned true ∧
+          ∀ p, o'.sp = some p → p.list = formParse false (o'.rep.partView QUERY) ∧ p.isSorted = false)) := by
+  intro idna o e units base pre trace k o' en h
+  rcases doParseWith_cases _ _ idna o e units base pre trace k o' en h with
+    ⟨h1, h2⟩ | ⟨half, _, h1, h2⟩ | ⟨r', _, _, h1, h2⟩ | ⟨r', _, h1, h2⟩ | ⟨_, h1, h2⟩
+  · exact ⟨fun _ => Or.inl h1, fun _ => Or.inl ⟨h1, h2⟩⟩
+  · subst h1; exact ⟨fun _ => Or.inr ⟨rfl, rfl, rfl⟩, fun hv => (by cases hv)⟩
+  · subst h1; exact ⟨fun _ => Or.inr ⟨rfl, rfl, rfl⟩, fun hv => (by cases hv)⟩
+  · subst h1 h2
+    refine ⟨fun hc => (by cases hc), fun _ => Or.inr ⟨rfl, ?_⟩⟩
+    intro p hp
+    simp only at hp
+    unfold parseSp at hp
+    split at hp
+    · cases hp; exact ⟨rfl, rfl⟩
+    · cases hp
+  · subst h1 h2; exact ⟨fun hc => (by cases hc), fun hv => (by cases hv)⟩
 
 /-- http://example.org/ (C20b) being re-parsed from "http://us…": the object as it is when the user
     name is being appended - "http://us", `part_end_` = [4, 7, 0, …] -/
@@ -391,19 +429,16 @@ def c20cHalf : Rep := (((Ser.new.writeScheme (asciiStr "http")).startPart USERNA
 theorem C20c_parseFailStates :
     ∀ (idna : Idna) (o : ObjR) (e : Enc) (units : List Nat) (base : Option (Option Rep)) (pre : Nat)
       (trace : List Rep), ∀ o' ∈ parseFailStates idna o e units base pre trace,
-      o' = o ∨ o' = { rep := Rep.cleared, valid := false, sp := o.newUrl.sp } ∨
-      (∃ r', parseRepOn idna o.rep e units (base.bind id) = some r' ∧
-        o' = { rep := r', valid := true, sp := o.newUrl.sp }) := by
+      o' = o ∨ o' = { rep := Rep.cleared, valid := false, sp := o.newUrl.sp } := by
   intro idna o e units base pre trace o' ho'
   unfold parseFailStates at ho'
   obtain ⟨k, _, hk⟩ := List.mem_filterMap.mp ho'
   split at hk
   · rename_i o'' heq
     cases hk
-    rcases C20c_parse_failure_classes idna o e units base pre trace (some k) _ heq with h | ⟨h, _⟩ | ⟨r', _, h1, _, h2⟩
+    rcases C20c_parse_failure_classes idna o e units base pre trace (some k) _ heq with h | ⟨h, _⟩
     · exact Or.inl h
-    · exact Or.inr (Or.inl h)
-    · exact Or.inr (Or.inr ⟨r', h1, h2⟩)
+    · exact Or.inr h
   · cases hk
 
 example :
@@ -420,22 +455,22 @@ theorem C20c_parse_error_empty :
       doParseExc idna o e units base pre trace none = (o', .returned false) →
       o' = { rep := Rep.cleared, valid := false, sp := o.newUrl.sp } := by
   intro idna o e units base pre trace o' h
-  unfold doParseExc doParseWith parseFinish at h
-  simp only at h
-  split at h
-  · split at h <;> simp at h
-  · exact (Prod.mk.inj h).1.symm
+  rcases doParseWith_cases _ _ idna o e units base pre trace none o' _ h with
+    ⟨_, h1⟩ | ⟨_, _, _, h1⟩ | ⟨_, _, _, _, h1⟩ | ⟨_, _, _, h1⟩ | ⟨_, h1, _⟩
+  · cases h1
+  · cases h1
+  · cases h1
+  · cases h1
+  · exact h1
 
 /-- 1-3 apply to whatever a failing `do_parse` leaves, provided the object it started on was one of the
     states `RObj` stands for (`o.Wf`; e.g. a valid url, an empty one, a post-failure object of 2):
     the object left behind is again such a state and `new_url()` resets it completely, so the next
-    parse (`doParseExc … none`) is `RObj.parse`: the parse of a fresh object.  In case (iii) the record is
-    the result of `parseRep`; that its string is non-empty is `C05e` (hypothesis `hres`: the result of
-    this parse has a non-empty string - every representation of a record has, `C20c_result_nonempty`). -/
+    parse (`doParseExc … none`) is `RObj.parse`: the parse of a fresh object.  (Since `parse_search_params()`
+    is inside the `try` no hypothesis on the result of the aborted parse is needed any more.) -/
 theorem C20c_after_parse_failure :
     ∀ (idna : Idna) (o : ObjR) (e : Enc) (units : List Nat) (base : Option (Option Rep)) (pre : Nat)
       (trace : List Rep) (k : Option Nat) (o' : ObjR), o.Wf →
-      (∀ r', parseRep idna e units (base.bind id) = some r' → r'.norm ≠ []) →
       doParseExc idna o e units base pre trace k = (o', .threw) →
       o'.Wf ∧ o'.rep.newUrl = Rep.cleared ∧
       (∀ (e' : Enc) (units' : List Nat) (base' : Option Rep),
@@ -444,22 +479,20 @@ theorem C20c_after_parse_failure :
         (doParseExc idna o' e' units' base' pre' trace' none).1.toRObj = (o'.toRObj.parse idna e' units' base').1 ∧
         (doParseExc idna o' e' units' base' pre' trace' none).1.toRObj.rep =
           (({} : RObj).parse idna e' units' base').1.rep) := by
-  intro idna o e units base pre trace k o' hw hres h
+  intro idna o e units base pre trace k o' hw h
   have hwf : o'.Wf := by
-    rcases C20c_parse_failure_classes idna o e units base pre trace k o' h with h1 | ⟨h1, _⟩ | ⟨r', _, h1, _, h2⟩
+    rcases C20c_parse_failure_classes idna o e units base pre trace k o' h with h1 | ⟨h1, _⟩
     · rw [h1]; exact hw
     · rw [h1]; exact ⟨fun hc => (by cases hc), fun _ => rfl⟩
-    · rw [h2]
-      rw [parseRepOn_eq idna (wf_resettable hw)] at h1
-      exact ⟨fun _ => hres r' h1, fun hc => by cases hc⟩
   have hr := wf_resettable hwf
   refine ⟨hwf, newUrl_resettable hr, fun e' units' base' => parseRepOn_eq idna hr e' units' base', ?_⟩
   intro e' units' base' pre' trace'
   have a := doParse_refines idna o' hwf e' units' base' pre' trace'
   exact ⟨a.1, by rw [a.1]; exact (C20c_obj_parse_fresh idna _ e' units' base').1⟩
 
-/-- the side condition of `C20c_after_parse_failure`, discharged by C05e: without a base, or against a
-    representation of a base record, a parse result has a non-empty string -/
+/-- (was the side condition of `C20c_after_parse_failure` while `parse_search_params()` stood outside the
+    `try`; kept: it is what makes a SUCCESSFULLY parsed object a state `new_url()` resets.)  By C05e, without
+    a base or against a representation of a base record, a parse result has a non-empty string -/
 theorem C20c_result_nonempty :
     ∀ (idna : Idna), IdnaStable idna → ∀ (e : Enc) (units : List Nat),
       (∀ r', parseRep idna e units none = some r' → r'.norm ≠ []) ∧
@@ -498,27 +531,55 @@ theorem C20c_catch_bites :
     parseRepOn c05dIdna c20cHalf .u8 inp none = parseRep c05dIdna .u8 inp none := by
   decide +kernel
 
-/-- case (iii) evaluated: http://example.org/?a=1 owning a params object is re-parsed from
-    "http://b/?y=2"; 2 throwing primitives in the parser, the 3rd is `parse_search_params()`.  When it
-    fails the url is valid, reads "http://b/?y=2", and its params list is the EMPTY list `clear()` left
-    (not the parse of "y=2").  Failing earlier leaves the empty url; no failure: the list is refilled. -/
-theorem C20c_params_failure_example :
+/-- The order bites (the finding repaired by commit 46fa9a3), on the OLD model `doParseParamsOutsideTry`
+    (`parse_search_params()` after the handler): http://example.org/?a=1 owning a params object is
+    re-parsed from "http://b/?y=2"; 2 throwing primitives in the parser, the 3rd is `parse_search_params()`.
+    When it fails the OLD code leaves a VALID url that reads "http://b/?y=2" whose params list is the EMPTY
+    list `clear()` left (not the parse of "y=2"): url and params out of step.  The library (`doParseExc`)
+    leaves the empty url under the same schedule; both agree on every other schedule shown (an earlier
+    failure: the empty url; no failure: the list refilled from the new query). -/
+theorem C20c_params_outside_try_bites :
     let r0 : Rep := { c20bExampleRep with norm := asciiStr "http://example.org/?a=1",
                                           partEnd := [4, 7, 7, 7, 7, 18, 18, 18, 19, 23, 0], queryNotNull := true }
     let o : ObjR := { rep := r0, valid := true, sp := some { list := [(asciiStr "a", asciiStr "1")], isSorted := false } }
     let inp := asciiStr "http://b/?y=2"
     let tr := [Rep.cleared, Rep.cleared]
     (∃ r', parseRep c05dIdna .u8 inp none = some r' ∧ r'.norm = inp ∧ r'.partView QUERY = asciiStr "y=2" ∧
-      doParseExc c05dIdna o .u8 inp none 0 tr (some 2) =
+      doParseParamsOutsideTry c05dIdna o .u8 inp none 0 tr (some 2) =
         ({ rep := r', valid := true, sp := some { list := [], isSorted := true } }, .threw) ∧
       (doParseExc c05dIdna o .u8 inp none 0 tr none).2 = .returned true ∧
       (doParseExc c05dIdna o .u8 inp none 0 tr none).1.rep = r' ∧
       (doParseExc c05dIdna o .u8 inp none 0 tr none).1.sp =
-        some { list := formParse false (r'.partView QUERY), isSorted := false }) ∧
+        some { list := formParse false (r'.partView QUERY), isSorted := false } ∧
+      doParseParamsOutsideTry c05dIdna o .u8 inp none 0 tr none = doParseExc c05dIdna o .u8 inp none 0 tr none) ∧
+    doParseExc c05dIdna o .u8 inp none 0 tr (some 2) =
+      ({ rep := Rep.cleared, valid := false, sp := some { list := [], isSorted := true } }, .threw) ∧
     doParseExc c05dIdna o .u8 inp none 0 tr (some 1) =
-      ({ rep := Rep.cleared, valid := false, sp := some { list := [], isSorted := true } }, .threw) := by
-  refine ⟨⟨_, rfl, by decide +kernel, by decide +kernel, by decide +kernel, by decide +kernel, by decide +kernel, rfl⟩,
-    by decide +kernel⟩
+      ({ rep := Rep.cleared, valid := false, sp := some { list := [], isSorted := true } }, .threw) ∧
+    doParseParamsOutsideTry c05dIdna o .u8 inp none 0 tr (some 1) =
+      doParseExc c05dIdna o .u8 inp none 0 tr (some 1) := by
+  refine ⟨⟨_, rfl, by decide +kernel, by decide +kernel, by decide +kernel, by decide +kernel, by decide +kernel,
+    rfl, rfl⟩, by decide +kernel, by decide +kernel, by decide +kernel⟩
+
+/-- … and the two models differ ONLY there: without a failing `parse_search_params()` the old order and
+    the new one are the same function -/
+theorem C20c_params_outside_try_same :
+    ∀ (idna : Idna) (o : ObjR) (e : Enc) (units : List Nat) (base : Option (Option Rep)) (pre : Nat)
+      (trace : List Rep),
+      doParseParamsOutsideTry idna o e units base pre trace none = doParseExc idna o e units base pre trace none ∧
+      ∀ k, k < pre + (tryBodyT idna o.rep e units base trace).pts.length →
+        doParseParamsOutsideTry idna o e units base pre trace (some k) =
+          doParseExc idna o e units base pre trace (some k) := by
+  intro idna o e units base pre trace
+  refine ⟨?_, ?_⟩
+  · unfold doParseParamsOutsideTry doParseExc doParseWith parseFinish
+    simp
+  · intro k hk
+    unfold doParseParamsOutsideTry doParseExc doParseWith
+    simp only
+    by_cases h1 : k < pre
+    · rw [if_pos h1, if_pos h1]
+    · rw [if_neg h1, if_neg h1, run_lt _ _ (by omega)]
 
 /-- without a failure `doParseExc` is the `RObj.parse` of `Impl/ObjRep.lean` (the function the
     correspondence driver replays against the real library), on every state `RObj` stands for -/
@@ -576,11 +637,13 @@ end Upa.Props
 #print axioms Upa.Props.C20c_empty_url_getters
 #print axioms Upa.Props.C20c_parse_failure_empty
 #print axioms Upa.Props.C20c_parse_failure_classes
+#print axioms Upa.Props.C20c_failed_parse_lockstep
 #print axioms Upa.Props.C20c_parseFailStates
 #print axioms Upa.Props.C20c_parse_error_empty
 #print axioms Upa.Props.C20c_after_parse_failure
 #print axioms Upa.Props.C20c_result_nonempty
 #print axioms Upa.Props.C20c_catch_bites
-#print axioms Upa.Props.C20c_params_failure_example
+#print axioms Upa.Props.C20c_params_outside_try_bites
+#print axioms Upa.Props.C20c_params_outside_try_same
 #print axioms Upa.Props.C20c_doParse_refines
 #print axioms Upa.Props.C20c_nonvacuous
